@@ -148,6 +148,15 @@ class SymGraphBase:
     def has_edge(self, u, v):
         return wrap(self.e(u, v))
 
+    def has_node(self, v):
+        return wrap(self.node.get(v, False))
+
+    def number_of_nodes(self):
+        s = SSet(dict(self.node))
+        if s.is_concrete():
+            return len(s.concrete())
+        raise Unsupported("number_of_nodes of a symbolic graph")
+
     def subgraph(self, nodes):
         keep = SSet.of(nodes)
         out = type(self)(self.U)
@@ -166,6 +175,24 @@ class SymDiGraph(SymGraphBase):
     def successors(self, v):
         record_raise(bnot(self.node[v]), "NetworkXError", f"The node {v} is not in the digraph.")
         return SSet({w: self.e(v, w) for w in self.U if w != v})
+
+    def in_edges(self, nbunch=None):
+        if nbunch is None:
+            return self.edges()
+        nb = SSet.of([nbunch]) if not isinstance(nbunch, (SSet, SList, set, frozenset, list, tuple)) else SSet.of(nbunch)
+        return SSet({k: band(g, nb.mem(k[1])) for k, g in self.edge.items()})
+
+    def out_edges(self, nbunch=None):
+        if nbunch is None:
+            return self.edges()
+        nb = SSet.of([nbunch]) if not isinstance(nbunch, (SSet, SList, set, frozenset, list, tuple)) else SSet.of(nbunch)
+        return SSet({k: band(g, nb.mem(k[0])) for k, g in self.edge.items()})
+
+    def has_predecessor(self, v, u):
+        return wrap(self.e(u, v))
+
+    def has_successor(self, u, v):
+        return wrap(self.e(u, v))
 
     def reach(self):
         """reach[u][v]: a directed path u ->* v of length >= 1 exists (Warshall)."""
@@ -272,3 +299,28 @@ def nx_all_simple_paths(g, source, target, cutoff=None):
             path = (source, *mid, target)
             out.append((band(*[g.e(u, v) for u, v in zip(path, path[1:])]), list(path)))
     return SList(out)
+
+
+def nx_edge_boundary(g, nbunch1, nbunch2=None):
+    A = SSet.of(nbunch1)
+    B = SSet.of(nbunch2) if nbunch2 is not None else SSet({v: bnot(A.mem(v)) for v in g.U})
+    if g.directed:
+        return SSet({k: band(e, A.mem(k[0]), B.mem(k[1])) for k, e in g.edge.items()})
+    out = {}
+    for k, e in g.edge.items():
+        u, v = tuple(k)
+        out[(u, v)] = band(e, A.mem(u), B.mem(v))
+        out[(v, u)] = band(e, A.mem(v), B.mem(u))
+    return SSet(out)
+
+
+def nx_node_boundary(g, nbunch1, nbunch2=None):
+    A = SSet.of(nbunch1)
+    out = {}
+    for v in g.U:
+        nb = [band(A.mem(u), g.e(u, v)) for u in g.U if u != v]
+        cond = band(bnot(A.mem(v)), bor(*nb))
+        if nbunch2 is not None:
+            cond = band(cond, SSet.of(nbunch2).mem(v))
+        out[v] = cond
+    return SSet(out)
